@@ -620,6 +620,8 @@ func main() {
 		switch probe.Kind {
 		case "closed-endpoint":
 			closedEndpoints(c)
+		case "replayed-open", "udp-open-race":
+			replayedOpens(c, vh.NewRand(int64(c.Seed)+5))
 		case "icmp-ack-replay":
 			icmpAckReplay(c)
 		case "concurrent-duplicate-delivery":
@@ -649,6 +651,7 @@ func main() {
 		concurrentDeliveries(c)
 		closedEndpoints(c)
 		icmpAckReplay(c)
+		replayedOpens(c, vh.NewRand(int64(uint64(c.Seed)*0x9E3779B97F4A7C15+77)))
 	}
 
 	var sb strings.Builder
